@@ -232,6 +232,9 @@ class SingleInterval(Location):
                 return False
             if not self.parent.equals_except_location(other.parent):
                 return False
+        # an empty location has no strand to compare and shares nothing
+        if other.is_empty:
+            return False
         if match_strand and self.strand != other.strand:
             return False
         if type(other) is SingleInterval:
